@@ -27,7 +27,7 @@ LEVEL_TEXT = ("seeded search over black options in pyproject.toml x clean / uncl
 LEVEL_NOTE = "trusted: black itself (called by the harness with a mode built from the same options); black's own instabilities are attributed by a second formatting pass and counted"
 RULE = ("one run = project (1-2 files) + [tool.black] options + approved set + 1-2 sessions; clean files must stay fixed points of black with the project's mode; "
         "distinct = (options, clean?, categories, #changed arguments); non-trivial = a clean file that a session changed")
-RULE += " Dimensions added while testing against seeded changes: sessions started in a neighbouring project directory that configures a format-command of its own; a black that fails for single value fragments only; sub-package with its own pyproject.toml; trim-only sessions."
+RULE += " Dimensions added while testing against seeded changes: sessions started in a neighbouring project directory that configures a format-command of its own; a black that fails for single value fragments only; sub-package with its own pyproject.toml; trim-only sessions; a transient failure of black on the first whole-file request for new content."
 ASSUMPTIONS = ["pyproject.toml with [tool.black] sits in the project directory (the session may be started elsewhere)", "real black only (no format-command in the project) for the clean clause"]
 REAL_VS_STUB = {
     "real": ["pytest", "inline_snapshot plugin + library from /repo/src (file_mode_for_path, format_code)", "black", "pyproject.toml read by black's own parser"],
